@@ -43,8 +43,8 @@ type oblOut struct {
 func lockName(fk string, o *Obl) string {
 	n := o.Name
 	switch o.Kind {
-	case "lemma", "inv-entry", "dec", "lockframe":
-	case "post", "inv-step":
+	case "lemma", "inv-entry", "lockframe":
+	case "post", "inv-step", "dec":
 		if i := strings.Index(n, "/e"); i >= 0 {
 			n = n[:i]
 		}
